@@ -121,10 +121,11 @@ def run(ctx) -> None:
         options = [[*K1, True], [*K2, True], [*K3, True], [*KB, True], [C, 0, 2, False], [*K1, True]]
         for i in range(ctx.pick(300, 12000) // ctx.shard_count):
             nsenders = rng.choice([4, 5, 6])
+            many = [[A, c, t] for c in range(4) for t in (2, 3)] + [[B, c, 2] for c in range(3)]
             config = {"version": ("2.0", "2.1", "2.2")[i % 3],
-                      "parked": rng.choice([[K1, K2, K3, K4], [K1, K2, KB], [K1]]),
+                      "parked": rng.choice([[K1, K2, K3, K4], [K1, K2, KB], [K1], many, many[:6]]),
                       "senders": [[list(rng.choice(options)) for _ in range(rng.choice([1, 2]))] for _ in range(nsenders)],
-                      "wakes": rng.choice([[A], [A, A], [A, B, A]]), "awake": [C]}
+                      "wakes": rng.choice([[A], [A, A], [A, B, A], [A, B, A, B, A]]), "awake": [C]}
             outcome = arun(run_schedule(config, [], rng))
             judge(ctx, config, outcome.choices, outcome, "random")
     reach.into(ctx)
